@@ -607,6 +607,12 @@ func RPCFreeSectors(ctx context.Context, t TransportClient, signer ContractSigne
 	})
 	indices = slices.Compact(indices)
 
+	// VerifyFreeSectorsProof panics on an index beyond the contract's sectors; fail
+	// the way an honest host would (TestMaxSectorBatchSize expects a bad request)
+	if n := contract.Revision.Filesize / rhp4.SectorSize; len(indices) > 0 && indices[0] >= n {
+		return RPCFreeSectorsResult{}, rhp4.NewRPCError(rhp4.ErrorCodeBadRequest, fmt.Sprintf("sector index %d exceeds contract sectors %d", indices[0], n))
+	}
+
 	req := rhp4.RPCFreeSectorsRequest{
 		ContractID: contract.ID,
 		Prices:     prices,
